@@ -27,6 +27,7 @@ CONSTANTS FIDS = {"f", "g"}
  BUDGET = %(B)d
  ENTRIES = %(E)d
  FIXTERM = TRUE
+ CTXFIX = TRUE
 INVARIANTS K1 K2 K5 K7 K7b K9 K10 FramesMatchGo
 PROPERTIES BudgetStops StepMonotone
 VIEW View
